@@ -12,6 +12,8 @@ pub fn exec_oracle(kind: &str, fields: &[&str]) -> String {
         "S_C04" => oracle_c04(fields),
         "S_C07" => oracle_c07(fields),
         "S_C07M" => oracle_c07m(fields),
+        "S_C16" => oracle_c16(fields),
+        "S_C16T" => oracle_c16t(fields),
         "S_C11A" => oracle_c11_adapt(fields),
         "S_C11ACC" => oracle_c11_accept(fields),
         "S_C11X" => oracle_c11_axisswap(fields),
@@ -887,4 +889,93 @@ fn oracle_c02(fields: &[&str]) -> String {
         }
         "oracle pass".to_string()
     })
+}
+
+// ----- C16: layout is insignificant ----------------------------------------------------------
+
+fn oracle_c16(fields: &[&str]) -> String {
+    let Some((spec, rest)) = crate::exec::parse_ctx(fields) else { return "bad-case".to_string() };
+    let canon = unescape(rest[0]);
+    let noisy = unescape(rest[1]);
+    let has_comments = rest[2] == "1";
+    let data = parse_data(rest[3]);
+    // normalisation is idempotent (comment-free text: comments are removed by the step splitter)
+    for t in [&canon, &noisy] {
+        if has_comments && t == &noisy {
+            continue;
+        }
+        let once = t.normalize();
+        let twice = once.normalize();
+        if once != twice {
+            return format!("oracle FAIL normalize not idempotent on {:?}: {:?} then {:?}", t, once, twice);
+        }
+    }
+    // identical step lists
+    let sc = canon.split_into_steps();
+    let sn = noisy.split_into_steps();
+    if sc != sn {
+        return format!("oracle FAIL step lists differ: {:?} vs {:?} (from {:?})", sc, sn, noisy);
+    }
+    // steps of a step list are fixed points
+    for s in &sn {
+        if s.split_into_steps() != vec![s.clone()] {
+            return format!("oracle FAIL step {:?} does not split into itself", s);
+        }
+    }
+    // identical behaviour
+    crate::exec::with_ctx(&spec, |ctx| {
+        let a = ctx.op(&canon);
+        let b = ctx.op(&noisy);
+        match (a, b) {
+            (Err(ea), Err(eb)) => {
+                if err_class(&ea) != err_class(&eb) {
+                    return format!("oracle FAIL different errors {} / {}", err_class(&ea), err_class(&eb));
+                }
+                "oracle pass".to_string()
+            }
+            (Ok(oa), Ok(ob)) => {
+                if ctx.steps(oa).ok() != ctx.steps(ob).ok() {
+                    return "oracle FAIL ctx.steps differ".to_string();
+                }
+                for dir in [Fwd, Inv] {
+                    let inv = dir == Inv;
+                    let mut da = data.clone();
+                    let mut db = data.clone();
+                    let na = ctx.apply(oa, if inv { Inv } else { Fwd }, &mut da).unwrap_or(usize::MAX);
+                    let nb = ctx.apply(ob, if inv { Inv } else { Fwd }, &mut db).unwrap_or(usize::MAX);
+                    if na != nb || dump_data(&da) != dump_data(&db) {
+                        return format!("oracle FAIL behaviour differs between {:?} and {:?}", canon, noisy);
+                    }
+                }
+                "oracle pass".to_string()
+            }
+            (a, b) => format!("oracle FAIL one layout instantiates, the other not: canonical ok={} noisy ok={} ({:?})", a.is_ok(), b.is_ok(), noisy),
+        }
+    })
+}
+
+/// a real parameter spelled `text` must take the value the spelling stands for
+fn oracle_c16t(fields: &[&str]) -> String {
+    let text = unescape(fields[0]);
+    let expected = parse_f(fields[1]);
+    let mut ctx = Minimal::default();
+    ctx.register_op("probe", crate::exec::user_ctor("u:probe").unwrap());
+    let op = match Op::new(&format!("probe real={text}"), &ctx) {
+        Ok(op) => op,
+        Err(e) => return format!("oracle FAIL real={text} rejected ({})", err_class(&e)),
+    };
+    let got = op.params.real("real").unwrap_or(f64::NAN);
+    let same_sign = got.is_sign_negative() == expected.is_sign_negative() || got == 0.0 && expected == 0.0 && text.starts_with("0");
+    if !((got - expected).abs() <= 2.0 * f64::EPSILON * expected.abs() && same_sign) {
+        return format!("oracle FAIL real={text} is read as {got} but stands for {expected}");
+    }
+    let v = parse_sexagesimal_public(&text);
+    if v.to_bits() != got.to_bits() {
+        return format!("oracle FAIL angular::parse_sexagesimal({text}) = {v} differs from the parameter value {got}");
+    }
+    "oracle pass".to_string()
+}
+
+fn parse_sexagesimal_public(s: &str) -> f64 {
+    angular::parse_sexagesimal(s)
 }
